@@ -3,6 +3,8 @@
 package config
 
 import (
+	"math"
+
 	"github.com/KevoDB/kevo/pkg/zzverif/vsym"
 )
 
@@ -54,6 +56,7 @@ func VerifC20_Validate() {
 	ok = vsym.And(ok, c.SSTableIndexSize > 0)
 	ok = vsym.And(ok, c.CompactionLevels > 0)
 	ok = vsym.And(ok, c.CompactionRatio > 1.0)
+	ok = vsym.And(ok, c.CompactionRatio <= math.MaxFloat64) // finite: an infinite ratio cannot be stored
 	ok = vsym.And(ok, c.ReadOnlyTxTTL > 0)
 	ok = vsym.And(ok, c.ReadWriteTxTTL > 0)
 	ok = vsym.And(ok, c.IdleTxTimeout > 0)
